@@ -450,6 +450,10 @@ func c18Scenarios(capn int, file bool) []c18Scenario {
 		mk("close races with blocked readers", []string{"W2", "C"}, []string{"A1@2"}, []string{"A1@3", "A1@2"}),
 		mk("writer w(cap-1),w2,w(cap-1) | reader at wrap", []string{"W" + c(-1), "W2", "W" + c(-1)}, []string{"A" + c(0) + "@1", "A" + c(0) + "@" + c(-1), "A" + c(0) + "@" + c(0), "D"}),
 		mk("zero-length and future offsets", []string{"W1", "W0", "W1"}, []string{"A0@0", "A0@9", "A1@9", "A1@1", "N", "r0", "V"}),
+		// several readers parked at the write position and fewer writes than readers: one write
+		// must release every one of them (nobody closes)
+		mk("writer w1 | three readers wait at offset 0", []string{"W1"}, []string{"A1@0"}, []string{"A1@0"}, []string{"A1@0"}),
+		mk("writer w2,w1 | readers wait at 0, at 1 and at 2", []string{"W2", "W1"}, []string{"A1@0"}, []string{"A2@1"}, []string{"A1@2"}),
 	}
 }
 
